@@ -209,6 +209,7 @@ func vfFileJSON(name string, out any) bool { return false }
 
 // RPC decoder queue (engine only)
 func vfQueueDecode(v any)    {}
+func vfQueueDecodeNil()      {} // the next Decode reads a msgpack nil: no error, the target becomes its zero value
 func vfDecodeQueueLen() int  { return 0 }
 
 func vfMlFaults()                      {}
